@@ -898,6 +898,27 @@ def r_abort(ctx):
                       'ParallelSolver::abort_search stores a bound that ignores the sub-problems still on the fringe (dropped by clear())')
             ctx.check(prev, 'R05.4', 'abort-bound/previous#%d' % n, asb, asb.loc(*pt), 'a second abort can only raise the stored bound (max with the previous one, or first abort)',
                       'best_ub is overwritten without max-combining the previously stored bound')
+        # an abort may leave best_ub untouched (first recorded bound stands) only if that bound can only have been written by an
+        # earlier abort — which requires that a worker never releases its unit of `ongoing` (making completion reachable for the
+        # others) before it has recorded its abort
+        wp_ = [pt for (pt, d, v) in ws]
+        r_ = asb.reach([(0, 0)], avoid=wp_)
+        must_write = not any(p_ in r_ for p_ in ret_points(asb))
+        mxp = ctx.body(PAR, 'maximize', trait='Solver')
+        worker_ = [c_ for c_ in ctx.unit(mxp) if c_.calls_to('abort_search')]
+        order_ok = False
+        if worker_:
+            w_ = worker_[0]
+            ab_ = [w_.term_point(bb) for (bb, t) in w_.calls_to('abort_search')]
+            gwp_ = [w_.term_point(bb) for (bb, t) in w_.calls_to('get_workload')]
+            order_ok = True
+            for (bb, t) in w_.calls_to('notify_node_finished'):
+                if any(a_ in w_.reach(w_.after(w_.term_point(bb)), stop=gwp_) for a_ in ab_):
+                    order_ok = False
+        ctx.check(must_write or order_ok, 'R05.4', 'abort-bound/recorded-on-every-abort', asb, asb.loc(0),
+                  'every abort records a bound, or (first bound stands) no worker releases its unit of ongoing before recording its abort, so that bound can only come from an abort',
+                  'abort_search can leave best_ub untouched while a worker releases `ongoing` (notify_node_finished) before calling abort_search: another worker can declare completion '
+                  '(best_ub := best_lb) in between and that value survives the abort')
         if pops and clears:
             r = asb.reach(asb.after(asb.term_point(clears[0][0])))
             ctx.check(asb.term_point(pops[0][0]) not in r, 'R05.4', 'abort-bound/peek-before-clear', asb, asb.loc(pops[0][0]),
